@@ -166,6 +166,7 @@ type VC struct {
 	heapDef   map[string]heapStore // structure of named heaps (single-cell stores, fresh arrays)
 	freshRefs map[string]bool      // identities returned by allocRef (pairwise distinct)
 	oldVals   map[string]bool      // slice-valued parameters (their arrays were allocated before the call)
+	addrTaken map[*types.Var]bool  // local scalar/slice variables whose address is taken somewhere: boxed at declaration
 }
 
 // heapStore records how a named heap was obtained from its predecessor.
